@@ -128,7 +128,7 @@ impl Clone for VaultCommit {
 //@  rewrite R6b "#[derive(Clone, Default)]" => ""
 //@end
 //@extract crates/vault/src/vault.rs :: struct Contents
-//@  rewrite R6b "#[derive(Clone, Default)]" => "#[derive(Default)]"
+//@  rewrite R6b "#[derive(Clone, Default)]" => ""
 //@end
 //@extract crates/vault/src/vault.rs :: struct Vault
 //@  rewrite R6b "#[derive(Clone, Default)]" => ""
@@ -218,6 +218,12 @@ impl Clone for Header {
             shared_access: self.shared_access.clone(),
         }
     }
+}
+/// `#[derive(Default)]` on Contents (R6b): every field's default (an empty map)
+impl Default for Contents {
+    fn default() -> (r: Self)
+        ensures r.data@.len() == 0,
+    { Contents { data: Default::default() } }
 }
 /// `#[derive(Clone)]` on Contents (R6b): `IndexMap::clone`
 impl Clone for Contents {
